@@ -73,10 +73,16 @@ func stdRoundTrips(t reflect.Type, v reflect.Value, enc func(any) ([]byte, error
 
 func c04Case(c *rt.Ctx, sub int, t reflect.Type, v reflect.Value, feat string) {
 	input := map[string]any{"type": t.String(), "value": stdRender(v.Interface())}
+	// Phase 1: every path encodes; the returned slices are kept as they are while the later paths
+	// (and their pooled buffers) run. Phase 2 decodes them: an output that shares memory with the
+	// library is overwritten in between.
+	outs := make([][]byte, len(c04Paths))
+	skip := make([]bool, len(c04Paths))
 	for i := range c04Paths {
 		p := &c04Paths[i]
 		if i > 0 && !stdRoundTrips(t, v, p.stdenc) {
 			c.Obs("path_filtered_not_roundtrippable_under_reference", 1)
+			skip[i] = true
 			continue
 		}
 		var b []byte
@@ -85,12 +91,25 @@ func c04Case(c *rt.Ctx, sub int, t reflect.Type, v reflect.Value, feat string) {
 		c.Eval(1)
 		if pan {
 			c.Violate(rt.Violation{Monitor: "roundtrip", Entry: p.name, Kind: "panic:" + rt.PanicClass(msg), Ctx: shapeCtx(frame, feat), Detail: "encode: " + msg + " | type " + t.String(), Input: input, Sub: sub})
+			skip[i] = true
 			continue
 		}
 		if err != nil {
 			c.Violate(rt.Violation{Monitor: "roundtrip", Entry: p.name, Kind: "encode-error", Ctx: errClass(err) + " @ " + featTag(feat), Detail: err.Error() + " | type " + t.String(), Input: input, Sub: sub})
+			skip[i] = true
 			continue
 		}
+		outs[i] = b
+	}
+	for i := range c04Paths {
+		p := &c04Paths[i]
+		if skip[i] {
+			continue
+		}
+		b := outs[i]
+		var err error
+		var pan bool
+		var msg, frame string
 		fresh := reflect.New(t)
 		pan, msg, frame = rt.Guard(func() { err = p.dec(b, fresh.Interface()) })
 		c.Eval(1)
